@@ -103,7 +103,7 @@ def key (m : M3) : Nat :=
   d3 m.a + 3 * (d3 m.b + 3 * (d3 m.c + 3 * (d3 m.d + 3 * (d3 m.e + 3 * (d3 m.f + 3 * (d3 m.g + 3 * (d3 m.h + 3 * d3 m.i)))))))
 
 /-- All entries in {-1,0,1}. -/
-def small (m : M3) : Bool := m.toList.all fun x => decide (-1 ≤ x) && decide (x ≤ 1)
+def small (m : M3) : Bool := m.toList.all fun x => x.natAbs ≤ 1
 
 end M3
 
